@@ -26,6 +26,18 @@ class NeedSplit(Exception):
         self.cond = cond
 
 
+def canon(t):
+    """canonical argument order for the commutative lattice operators (max/min), so that min(a,b) and min(b,a)
+    are the same opaque leaf"""
+    def f(x):
+        if x[0] in ('max', 'min'):
+            a, b = x[1], x[2]
+            if show(b) < show(a):
+                return (x[0], b, a)
+        return x
+    return map_term(t, f)
+
+
 def _top_conds(t, acc):
     """conditions of the γ nodes reachable from the root through arithmetic nodes and γ branches only"""
     op = t[0]
@@ -216,7 +228,7 @@ class Prover:
 
     # ---- public
     def eq(self, lhs, rhs, facts=()):
-        return self._prove('eq', mk('sub', lhs, rhs), facts)
+        return self._prove('eq', mk('sub', canon(lhs), canon(rhs)), [canon(f) for f in facts])
 
     def ge0(self, t, facts=()):
         return self._prove('ge0', t, facts)
@@ -225,7 +237,48 @@ class Prover:
         return self._prove('gt0', t, facts)
 
     def le(self, a, b, facts=()):
+        """a <= b: lattice decomposition over max/min first, algebra on the leaves"""
+        a, b = canon(a), canon(b)
+        facts = [canon(f) for f in facts]
+        r = self._le_struct(a, b, facts, 0)
+        if r is not None and r[0] == 'PROVED':
+            return r
         return self._prove('ge0', mk('sub', b, a), facts)
+
+    def _le_struct(self, a, b, facts, depth):
+        if a == b:
+            return ('PROVED', 'identical terms')
+        if depth > 8:
+            return None
+        for f in facts:
+            if (f[0] in ('le', 'lt') and f[1] == a and f[2] == b) or (f[0] in ('ge', 'gt') and f[1] == b and f[2] == a):
+                return ('PROVED', 'stated fact')
+        if a[0] == 'max':            # max(x,y) <= b  <=>  x <= b and y <= b
+            r1 = self._le_struct(a[1], b, facts, depth + 1)
+            r2 = self._le_struct(a[2], b, facts, depth + 1)
+            if r1 and r2 and r1[0] == r2[0] == 'PROVED':
+                return ('PROVED', 'both arguments of the max are bounded (%s; %s)' % (r1[1][:60], r2[1][:60]))
+            return None
+        if b[0] == 'min':            # a <= min(x,y)  <=>  a <= x and a <= y
+            r1 = self._le_struct(a, b[1], facts, depth + 1)
+            r2 = self._le_struct(a, b[2], facts, depth + 1)
+            if r1 and r2 and r1[0] == r2[0] == 'PROVED':
+                return ('PROVED', 'bounded by both arguments of the min')
+            return None
+        if a[0] == 'min':            # min(x,y) <= b  <=  x <= b or y <= b
+            for x in (a[1], a[2]):
+                r = self._le_struct(x, b, facts, depth + 1)
+                if r and r[0] == 'PROVED':
+                    return ('PROVED', 'one argument of the min is bounded (%s)' % r[1][:80])
+        if b[0] == 'max':            # a <= max(x,y)  <=  a <= x or a <= y
+            for x in (b[1], b[2]):
+                r = self._le_struct(a, x, facts, depth + 1)
+                if r and r[0] == 'PROVED':
+                    return ('PROVED', 'bounded by one argument of the max (%s)' % r[1][:80])
+        if a[0] in ('max', 'min') or b[0] in ('max', 'min'):
+            return None
+        r = self._prove('ge0', mk('sub', b, a), facts)
+        return r if r[0] == 'PROVED' else None
 
     def holds(self, boolterm, facts=()):
         """prove a comparison term"""
